@@ -1292,3 +1292,33 @@ B('bat-memo-of-last-batcher-copied', ['C15'], ['C15-R3'],
             batcher = batchers[loop] = AsyncBackgroundBatcher("""))
 B('bridge-sentinel-is-none', ['C16'], ['C16-TA2'],
   (A, "_DONE = object()\n", "_DONE = None\n"))
+
+# --- rules from seeded wave 10, second batch -----------------------------------------------------------
+B('bat-retention-cache-with-a-cap', ['C11'], ['C11-R6'],
+  (A, "        self._retention_cache = {}\n", "        self._retention_cache = _Capped()\n"),
+  (A, "E = TypeVar('E', bound=BaseException)\n", "class _Capped(dict):  # type: ignore\n    def __setitem__(self, k: Any, v: Any) -> None:\n        if len(self) > 1024:\n            del self[next(iter(self))]\n        super().__setitem__(k, v)\n\n\nE = TypeVar('E', bound=BaseException)\n"))
+T('bat-retention-cache-plain-subclass', ['C11', 'C04'],
+  (A, "        self._retention_cache = {}\n", "        self._retention_cache = _Futures()\n"),
+  (A, "E = TypeVar('E', bound=BaseException)\n", "class _Futures(dict):  # type: ignore\n    \"\"\"key -> future\"\"\"\n\n\nE = TypeVar('E', bound=BaseException)\n"))
+B('bat-option-descriptor-keeps-value', ['C11'], ['C11-R7'],
+  (A, "    retention_timeout: float\n", "    retention_timeout = _Seconds()\n"),
+  (A, "E = TypeVar('E', bound=BaseException)\n", "class _Seconds:\n    def __get__(self, obj: Any, objtype: Any = None) -> Any:\n        return self if obj is None else self.seconds\n\n    def __set__(self, obj: Any, value: float) -> None:\n        self.seconds = float(value)\n\n\nE = TypeVar('E', bound=BaseException)\n"))
+T('bat-option-descriptor-per-instance', ['C11'],
+  (A, "    retention_timeout: float\n", "    retention_timeout = _Seconds()\n"),
+  (A, "E = TypeVar('E', bound=BaseException)\n", "class _Seconds:\n    def __get__(self, obj: Any, objtype: Any = None) -> Any:\n        return self if obj is None else obj.__dict__['_rt']\n\n    def __set__(self, obj: Any, value: float) -> None:\n        obj.__dict__['_rt'] = float(value)\n\n\nE = TypeVar('E', bound=BaseException)\n"))
+B('lock-default-timeout-or-minus-one', ['C12'], ['C12-R6'],
+  (F, "        self.timeout: float = timeout\n", "        self.timeout: float = timeout or -1\n"))
+B('cache-kwargs-helper-misaligned', ['C14'], ['C14-R1'],
+  (A, "        key = args, frozenset(kwargs.items())\n", "        key = args, _kwargs_key(kwargs)\n"),
+  (A, "E = TypeVar('E', bound=BaseException)\n", "def _kwargs_key(kwargs: Any) -> Any:\n    if not kwargs:\n        return frozenset()\n    return tuple(sorted(kwargs)), tuple(kwargs.values())\n\n\nE = TypeVar('E', bound=BaseException)\n"))
+T('cache-kwargs-helper-faithful', ['C14'],
+  (A, "        key = args, frozenset(kwargs.items())\n", "        key = args, _kwargs_key(kwargs)\n"),
+  (A, "E = TypeVar('E', bound=BaseException)\n", "def _kwargs_key(kwargs: Any) -> Any:\n    return frozenset(kwargs.items())\n\n\nE = TypeVar('E', bound=BaseException)\n"))
+B('split-decorated-repacks-results', ['C18'], ['C18-U1'],
+  (I, "def split(", "def _yielding(func: Any) -> Any:\n    def _wrapper(*args: Any, **kwargs: Any) -> Any:\n        a, b = func(*args, **kwargs)\n        return iter(a), iter(b)\n    return _wrapper\n\n\n@_yielding\ndef split("))
+T('split-decorated-transparently', ['C18'],
+  (I, "def split(", "def _traced(func: Any) -> Any:\n    def _wrapper(*args: Any, **kwargs: Any) -> Any:\n        return func(*args, **kwargs)\n    return _wrapper\n\n\n@_traced\ndef split("))
+B('gather-filter-refused-for-baseexception', ['C20'], ['C20-R1'],
+  (A, "    for res in await aio.gather(*aws, return_exceptions=True):\n", "    if not issubclass(only, Exception):\n        raise TypeError('only must be an exception class')\n    for res in await aio.gather(*aws, return_exceptions=True):\n"))
+B('gather-awaitables-wrapped', ['C20'], ['C20-R1'],
+  (A, "    for res in await aio.gather(*aws, return_exceptions=True):\n", "    aws = [aio.shield(a) for a in aws]\n    for res in await aio.gather(*aws, return_exceptions=True):\n"))
